@@ -17,7 +17,7 @@ from .ast import Node, REPO
 
 VERIF = os.path.dirname(os.path.dirname(os.path.abspath(__file__)))
 CACHE = os.path.join(VERIF, '.cache')
-FRONTEND_VERSION = '15'
+FRONTEND_VERSION = '16'
 
 
 class AnalysisBroken(Exception):
@@ -197,6 +197,16 @@ class _Loc(object):
         return None
 
 
+def _unconst_ptr(t):
+    """`T *const` -> `T *`: whether the pointer variable itself may be reassigned is irrelevant to every rule (mutation is
+    read off the assignments), and the engines recognise pointers by the trailing `*`.  Only the top-level const is dropped."""
+    if t and t.endswith('const'):
+        u = t[:-5].rstrip()
+        if u.endswith('*'):
+            return u
+    return t
+
+
 def _reduce(j, L, counter):
     """json dict -> Node (recursively), tracking clang's stateful file/line encoding."""
     n = Node()
@@ -220,8 +230,8 @@ def _reduce(j, L, counter):
         n.file, n.line, n.col, n.macro = use[0], use[1], use[2], use[3]
     t = j.get('type')
     if t:
-        n.type = t.get('qualType')
-        n.dtype = t.get('desugaredQualType')
+        n.type = _unconst_ptr(t.get('qualType'))
+        n.dtype = _unconst_ptr(t.get('desugaredQualType'))
     n.name = j.get('name')
     n.op = j.get('opcode')
     if 'value' in j:
